@@ -78,8 +78,19 @@ class Variable(FortranObj):
             return
         if self.parent is not None:
             link_obj = find_in_scope(self.parent, self.link_name, obj_tree)
-            if link_obj is not None:
+            if link_obj is not None and not self.links_back(link_obj):
                 self.link_obj = link_obj
+
+    def links_back(self, link_obj) -> bool:
+        """Check if following the links of ``link_obj`` leads back to this object,
+        e.g. ``a => a`` or ``a => b`` with ``b => a``"""
+        seen = [self]
+        while link_obj is not None:
+            if any(link_obj is obj for obj in seen):
+                return True
+            seen.append(link_obj)
+            link_obj = getattr(link_obj, "link_obj", None)
+        return False
 
     def require_link(self):
         return self.link_name is not None
